@@ -95,6 +95,25 @@ func breakLayout(r *Rng, l Layout) ([]rawArch, string) {
 			return as, "one-point-too-few"
 		}
 	case 11: // retention overflows int32
+		if r.Chance(1, 3) {
+			// step x points passes 2^32 (once or a few times) by less than 2^31: the product taken
+			// in 32 bits is a small positive number again, while the count is far too small for
+			// the file-size rule to refuse the archive
+			st := int64(r.PickInt([]int{60, 300, 600, 3600, 86400}))
+			if as[k-1].step >= 30 {
+				st = as[k-1].step
+			}
+			laps := int64(1 + r.Intn(3))
+			n := (laps<<32+int64(r.Intn(1<<20)))/st + 1
+			if r.Bool() {
+				n = (laps<<32+int64(r.Intn(1<<31-1<<21)))/st + 1
+			}
+			if k > 1 && as[k-1].step == st && r.Bool() {
+				as[k-1].n = n
+				return as, "retention-wraps-2^32"
+			}
+			return []rawArch{{st, n}}, "retention-wraps-2^32"
+		}
 		as[k-1].n = (1<<31)/as[k-1].step + int64(r.Intn(3)) - 1
 		return as, "retention-near-2^31"
 	case 12: // file size overflows uint32
